@@ -30,7 +30,7 @@ META = dict(
                 'on a systematic sweep (every mutator x depth x subscriber placement x notification on/off) and generated histories; direct oracles for the event contract and for freshness '
                 'against a copy rebuilt from JSON, also on typed trees with required/default fields, MISSING_VALUE and pg.oneof.'),
     level_note=('Trusted: Coq kernel; extraction cross-checked against vm_compute; the SymCore driver and the C09 observers (test classes, callbacks, reading the memo attributes). '
-                'Modelled, not verified: the Python code (tied by the correspondence). Not covered by C09_fresh: rebind(notify_parents=False) (correspondence and oracles only). '
+                'Modelled, not verified: the Python code (tied by the correspondence). '
                 'Children-first is proved for paths of simple keys (where sorted() is determined). Typed fields and pg.oneof are covered by the direct oracle only. '
                 'One open finding (event for a reset that changes nothing), exhibited by C09_spurious_refuted.'),
     rule='a case is (forest literal with callback flags, list of (scope stack, operation, observe?)); distinct by canonical text; non-trivial when at least one '
@@ -38,7 +38,7 @@ META = dict(
     trusted_base=['extraction: ExtrOcamlBasic only; ocaml/main.ml lexer/printer; cross-checked against vm_compute on a sample',
                   'implementation driver harness/props/symcore_driver.py + the observers of harness/props/c09.py (test classes, callbacks, cache inspection)'],
     assumptions=['histories are finite sequences of the modelled operations; rebind batches generated for the correspondence are prefix-free',
-                 'C09_fresh: history_ok -- no rebind(notify_parents=False) step; an opaque leaf identity has one content (sort/reverse identity test)',
+                 'C09_fresh: history_ok -- an opaque leaf identity has one content (where the identity test of sort/reverse says nothing moved, the items are the same list)',
                  'C09_children_first: the keys on the receivers\' paths are simple (ints 0..9, strings not starting with a digit or sign); counted per run in coverage.hypotheses'],
 )
 
